@@ -207,7 +207,7 @@ def nontrivial(case):
 
 
 def shards(tier):
-    per = 120 if tier == 'quick' else 12000
+    per = 400 if tier == 'quick' else 12000
     out = [{'name': 'ext-' + k, 'kind': 'ext', 'ext': k, 'examples': per, 'hypothesis': True} for k in sorted(KINDS)]
     # the same kinds on sessions with another configuration (fewer examples each)
     for cfg in sorted(SESSION_CONFIGS):
